@@ -127,7 +127,11 @@ def cond2(Mf):
     if np is None:
         return 1e6
     try:
-        c = float(np.linalg.cond(np.array(Mf, dtype=float)))
+        big = max((abs(x) for r in Mf for x in r), default=0.0)
+        if big == 0.0:
+            return float("inf")
+        m, ex = math.frexp(big)
+        c = float(np.linalg.cond(np.array([[math.ldexp(x, -ex) for x in r] for r in Mf], dtype=float)))
     except Exception:
         return float("inf")
     return c
@@ -170,7 +174,7 @@ def qr_matrix(rng, k):
         kappa = 10.0 ** rng.choice([1, 2, 3, 4, 5, 6]) if n > 1 else 1.0
         Q1, Q2 = cayley(rng, n), cayley(rng, n)
         sig = [Fraction(kappa ** (-i / max(n - 1, 1))) for i in range(n)]
-        scale = Fraction(10.0 ** rng.uniform(-3, 3))
+        scale = Fraction(10.0 ** rng.choice([rng.uniform(-3, 3), rng.uniform(-3, 3), 150, -150, 299, -300 + math.log10(kappa)]))
         D = fmat(n, lambda i, j: sig[i] * scale if i == j else Fraction(0))
         M = mmul(mmul(Q1, D), mT(Q2))
         return [[float(x) for x in r] for r in M], "graded"
@@ -180,8 +184,8 @@ def qr_matrix(rng, k):
         if n == 1:
             M[0][0] = -1.5
         return M, "x0zero"
-    s = 10.0 ** rng.uniform(-6, 6) if c == 9 else 1.0
-    return [[s * rng.gauss(0, 1) for _ in range(n)] for _ in range(n)], "dense"
+    s = 10.0 ** rng.choice([rng.uniform(-6, 6), rng.uniform(-6, 6), 150, -150, 299, -300]) if c == 9 else 1.0
+    return [[s * max(-8.0, min(8.0, rng.gauss(0, 1))) for _ in range(n)] for _ in range(n)], "dense"
 
 
 def graded_column_matrix(rng, k):
@@ -270,6 +274,64 @@ def traceless_spectrum(rng, n):
             return lam
 
 
+def singular_matrix(rng, k):
+    """singular square matrices (since e9c6d4b QR_Decomposition returns finite factors with some R[k][k] = 0)"""
+    n = rng.choice([1, 2, 2, 3, 3, 4, 5, 6, 7])
+    c = k % 6
+    if c == 0 or n == 1:
+        M = [[rng.uniform(-2, 2) for _ in range(n)] for _ in range(n)]
+        j = rng.randrange(n)
+        for i in range(n):
+            M[i][j] = 0.0                                   # a zero column (first, middle or last)
+        return M, "sing-zerocol"
+    if c == 1:
+        M = [[float(rng.randint(-4, 4)) for _ in range(n)] for _ in range(n)]
+        a, b = rng.sample(range(n), 2)
+        for i in range(n):
+            M[i][b] = 2.0 * M[i][a]                         # exactly dependent columns
+        return M, "sing-dependent"
+    if c == 2:
+        d = [rng.choice([0.0, 0.0, 1.0, -2.0, 3.0]) for _ in range(n)]
+        d[rng.randrange(n)] = 0.0
+        return [[d[i] if i == j else 0.0 for j in range(n)] for i in range(n)], "sing-diag"
+    if c == 3:
+        Q1, Q2 = cayley(rng, n), cayley(rng, n)
+        sig = [Fraction(rng.randint(1, 8)) for _ in range(n)]
+        for i in rng.sample(range(n), rng.randint(1, max(1, n // 2))):
+            sig[i] = Fraction(0)
+        D = fmat(n, lambda i, j: sig[i] if i == j else Fraction(0))
+        M = mmul(mmul(Q1, D), mT(Q2))
+        return [[float(x) for x in r] for r in M], "sing-dense"      # rounded: numerically singular
+    if c == 4:
+        u = [float(rng.randint(-3, 3)) for _ in range(n)]
+        v = [float(rng.randint(-3, 3)) for _ in range(n)]
+        return [[u[i] * v[j] for j in range(n)] for i in range(n)], "sing-rank1"
+    return [[0.0] * n for _ in range(n)], "sing-zero"
+
+
+def zero_eigenvalue_family(rng, nrandom):
+    """symmetric matrices with an eigenvalue exactly 0 (exact members) or ~1e-17 (dense rational Q, rounded entries)"""
+    F = Fraction
+    out = []
+    for M, lam in (([[1.0, 0.0], [0.0, 0.0]], [F(1), F(0)]), ([[1.0, 1.0], [1.0, 1.0]], [F(2), F(0)]),
+                   ([[2.0, 0.0, 0.0], [0.0, 1.0, 0.0], [0.0, 0.0, 0.0]], [F(2), F(1), F(0)]),
+                   ([[4.0, 2.0], [2.0, 1.0]], [F(5), F(0)])):
+        out.append((M, lam, "zeroeig-exact"))
+    for k in range(nrandom):
+        n = rng.choice([2, 3, 3, 4, 5, 6, 7])
+        lam = sorted(spectrum(rng, n - 1), key=abs, reverse=True) + [F(0)]
+        c = k % 3
+        if c == 0:
+            Q = fmat(n, lambda i, j: F(int(i == j))); fam = "zeroeig-diagonal"
+        elif c == 1 and n >= 4:
+            m = n // 2
+            Q = block_diag([cayley(rng, m), cayley(rng, n - m)]); fam = "zeroeig-block"
+        else:
+            Q = cayley(rng, n); fam = "zeroeig-dense"
+        out.append((sym_from(Q, lam), lam, fam))
+    return out
+
+
 def checkerboard_family(rng, nrandom):
     """symmetric matrices that couple only indices of equal parity (two dense blocks on the even and on the odd indices,
     exact zeros elsewhere): the first sub-diagonal is exactly zero throughout the iteration, the convergence is decided by
@@ -354,9 +416,34 @@ def generate(tier, seed, ctx):
     for k in range(240 if thorough else 48):
         M, fam = graded_column_matrix(rng, k)
         R.append(req_matrix("c15.qr", M)); meta[R[-1]] = ("qr", fam)
-    for n in range(1, 5):                               # singular: a zero column is met (NaN in the C++, not modelled)
-        R.append(req_matrix("c15.qr", [[0.0] * n for _ in range(n)]))
-    R.append(req_matrix("c15.qr", [[1.0, 2.0], [2.0, 4.0]]))
+    # structured matrices: +-identity, entries -0.0, Hilbert matrices, sparse integer matrices
+    for n in range(1, 6):
+        I = [[float(i == j) for j in range(n)] for i in range(n)]
+        R.append(req_matrix("c15.qr", I)); meta[R[-1]] = ("qr", "identity")
+        R.append(req_matrix("c15.qr", [[-x for x in r] for r in I])); meta[R[-1]] = ("qr", "neg-identity")   # off-diagonal entries are -0.0
+        H = [[1.0 / (i + j + 1) for j in range(n)] for i in range(n)]
+        R.append(req_matrix("c15.qr", H)); meta[R[-1]] = ("qr", "hilbert")
+    for k in range(20 if thorough else 6):
+        n = rng.randint(2, 7)
+        while True:
+            S = [[float(rng.choice([0, 0, 0, 1, -1, 2, -3])) for _ in range(n)] for _ in range(n)]
+            if det_exact([[Fraction(x) for x in r] for r in S]) != 0:
+                break
+        if k % 2:
+            S = [[(-0.0 if x == 0 and rng.random() < 0.5 else x) for x in r] for r in S]
+        R.append(req_matrix("c15.qr", S)); meta[R[-1]] = ("qr", "sparse-int")
+    # singular matrices: finite factors, Q*R = M, Q orthogonal, R upper triangular (e9c6d4b)
+    for n in range(1, 5):
+        R.append(req_matrix("c15.qr", [[0.0] * n for _ in range(n)])); meta[R[-1]] = ("qr", "sing-zero")
+    R.append(req_matrix("c15.qr", [[1.0, 2.0], [2.0, 4.0]])); meta[R[-1]] = ("qr", "sing-dependent")
+    for k in range(180 if thorough else 36):
+        M, fam = singular_matrix(rng, k)
+        R.append(req_matrix("c15.qr", M)); meta[R[-1]] = ("qr", fam)
+        if k % 3 == 0:
+            R.append(req_matrix("c15.householder", M)); meta[R[-1]] = ("hh", fam)
+    # a zero eigenvalue (e9c6d4b: the last pivot column of the iterates vanishes)
+    for M, lam, fam in zero_eigenvalue_family(rng, 60 if thorough else 12):
+        R.append(req_matrix("c15.spectrum", M)); meta[R[-1]] = ("eig", fam, lam)
     for k in range(500 if thorough else 50):
         M, lam, fam = sym_matrix(rng, k)
         R.append(req_matrix("c15.spectrum", M)); meta[R[-1]] = ("eig", fam, lam)
@@ -458,7 +545,14 @@ def _spectrum_check(vals, lam, Mf, what):
     for g in got:
         prod *= g
     # first-order propagation of an absolute error `tol` in each factor
-    ptol = sum(abs(det / e) for e in lam) * tol * 2
+    ptol = Fraction(0)
+    for i in range(len(lam)):
+        pr = Fraction(1)
+        for j, e in enumerate(lam):
+            if j != i:
+                pr *= abs(e)
+        ptol += pr
+    ptol = ptol * tol * 2
     if abs(prod - det) > ptol:
         out.append((what + ": the values do not multiply to the determinant", "%.17g vs %.17g" % (float(prod), float(det))))
     return out
@@ -487,7 +581,7 @@ def compare(rq, impl, model, ctx):
         H = [fl(t) for t in ti]
         Hm = [fr(t) for t in tm]
         if not _finite(H):
-            return fs + [fail("prop", "Householder_Matrix: non-finite entry for a non-zero first column", impl[:200])]
+            return fs + [fail("prop", "Householder_Matrix: non-finite entry", impl[:200])]
         Hq = [[Fraction(H[i * n + j]) for j in range(n)] for i in range(n)]
         tol = K_ORA * n * EPS
         G = mmul(Hq, Hq)
@@ -497,7 +591,7 @@ def compare(rq, impl, model, ctx):
         x = [Fraction(M[i][0]) for i in range(n)]
         y = [sum(Hq[i][k] * x[k] for k in range(n)) for i in range(n)]
         nx2 = sum(t * t for t in x)
-        sc = Fraction(math.sqrt(float(nx2))) if nx2 else Fraction(1)
+        sc = max(abs(t) for t in x) * n if nx2 else Fraction(1)      # >= |x|, exact (no float under/overflow at 1e+-300)
         if any(abs(y[i]) > tol * sc * 4 for i in range(1, n)) or abs(y[0] * y[0] - nx2) > 8 * tol * nx2:
             out.append(fail("prop", "Householder_Matrix: the first column is not mapped to a multiple +-|x|*e1 of the first unit vector", ""))
         elif (x[0] != 0 and (y[0] > 0) == (x[0] > 0)) or (x[0] == 0 and y[0] > 0):
@@ -509,8 +603,14 @@ def compare(rq, impl, model, ctx):
         v = [fl(t) for t in ti]
         kappa = cond2(M)
         if kappa > 1e12:
-            bump(ctx, "qr.singular_skipped")       # (numerically) singular: outside the property's quantifier
-            return fs
+            # (numerically) singular: since e9c6d4b the factors are finite and the three clauses still hold (some R[k][k] = 0);
+            # only the entry-wise comparison with the model is not meaningful (the factors are not unique)
+            bump(ctx, "qr.singular")
+            if len(v) != 2 * n * n or not _finite(v):
+                return fs + [fail("prop", "QR_Decomposition: non-finite entry for a singular matrix (zero pivot column)", impl[:200])]
+            Q = [v[i * n:(i + 1) * n] for i in range(n)]
+            Rm = [v[n * n + i * n:n * n + (i + 1) * n] for i in range(n)]
+            return fs + [fail("prop", clause, det) for clause, det in oracle_qr(n, M, Q, Rm)]
         if len(v) != 2 * n * n or not _finite(v):
             return fs + [fail("prop", "QR_Decomposition: non-finite entry for a non-singular matrix", impl[:200])]
         Q = [v[i * n:(i + 1) * n] for i in range(n)]
@@ -544,6 +644,37 @@ def compare(rq, impl, model, ctx):
     return fs + out
 
 
+def _components(n, M):
+    """connected components of the pattern of exactly non-zero off-diagonal entries (the iteration acts on each separately,
+    in exact and in floating-point arithmetic alike: exact zeros stay exact zeros)"""
+    comp = list(range(n))
+
+    def find(i):
+        while comp[i] != i:
+            comp[i] = comp[comp[i]]
+            i = comp[i]
+        return i
+    for i in range(n):
+        for j in range(i):
+            if M[i][j] != 0 or M[j][i] != 0:
+                comp[find(i)] = find(j)
+    groups = {}
+    for i in range(n):
+        groups.setdefault(find(i), []).append(i)
+    return list(groups.values())
+
+
+def _unsorted_fixed_point(n, M, mvals):
+    """the model's converged diagonal is not in descending magnitude within some irreducible block"""
+    if len(mvals) != n:
+        return False
+    for idx in _components(n, M):
+        v = [abs(mvals[i]) for i in idx]
+        if any(v[i] < v[i + 1] for i in range(len(v) - 1)):
+            return True
+    return False
+
+
 def compare_spectrum(rq, n, M, impl, model, meta, ctx):
     """Eigenvalues.  Convergence is correspondence/oracle-only and sensitive to rounding for matrices with
     invariant coordinate subspaces (the exact iteration stays near an unsorted fixed point that rounding
@@ -563,6 +694,17 @@ def compare_spectrum(rq, n, M, impl, model, meta, ctx):
         if lam is None and tm != "ok":
             return []
         msteps = int(toks(model)[-1]) if tm == "ok" else None
+        unsorted = False
+        if tm == "ok":
+            mt = toks(model)
+            unsorted = _unsorted_fixed_point(n, M, [fr(x) for x in mt[1:1 + int(mt[0])]])
+        if unsorted:
+            # The exact iteration of the coded algorithm ended at an UNSORTED fixed point inside an irreducible block (its
+            # diagonal is not in descending magnitude): it keeps an invariant subspace exactly, rounding errors leave it and
+            # the rounded iteration then has to pass it slowly — the recorded slow-swap finding, not a new one.
+            bump(ctx, "eig.slow_swap_model_unsorted")
+            return [fail("prop", "Eigenvalues: stopped with 'did not converge in 200 steps' on a symmetric matrix whose eigenvalues are separated in magnitude",
+                         "model: ok after %d steps at an unsorted fixed point %s" % (msteps, [float(fr(x)) for x in mt[1:1 + int(mt[0])]]))]
         if msteps is not None and msteps <= 150:
             # the coded iteration converges in exact arithmetic with a wide margin: not the slow passage past an
             # unsorted fixed point (recorded finding), the implementation's convergence test / loop is at fault
@@ -571,6 +713,8 @@ def compare_spectrum(rq, n, M, impl, model, meta, ctx):
                                  "(stopped with 'did not converge in 200 steps')" % what, "the exact model converges after %d steps" % msteps)]
         return [fail("prop", "Eigenvalues: stopped with 'did not converge in 200 steps' on a symmetric matrix whose eigenvalues are separated in magnitude",
                      "model: " + (tm if msteps is None else "ok after %d steps" % msteps))]
+    if ti == "err-other":
+        return [fail("prop", "Eigenvalues: stopped with an unexpected diagnostic (not 'did not converge')", impl[:200])]
     if ti != "ok":
         return [fail("corr", "unknown harness tag " + ti, "")]
     t = toks(impl)
@@ -621,6 +765,8 @@ def compare_system(op, rq, n, M, impl, meta, ctx):
         return [fail("prop", P + "did not terminate within the time bound (1 s) on a symmetric matrix with separated eigenvalues", "")]
     if t == "err":
         return [fail("prop", P + "stopped with a diagnostic on a symmetric matrix with separated eigenvalues (Inverse of the shifted matrix)", "")]
+    if t == "err-other":
+        return [fail("prop", P + "stopped with an unexpected diagnostic (neither Matrix::Inverse nor 'did not converge')", impl[:200])]
     if t != "ok":
         return [fail("prop", P + "crash/sanitizer/silent exit: " + t, impl[:200])]
     ts = toks(impl)
